@@ -52,6 +52,8 @@ type Config struct {
 	Genesis   *cctptypes.GenesisState // cctp genesis handed to InitGenesis (nil: default)
 	Funded    map[string]*big.Int     // bech32 address -> uusdc balance
 	Allowance *big.Int                // cctp module's minter allowance at the fiat-token-factory
+	// BankBlocked: bech32 addresses the bank refuses to pay out to (its blocked-address list).
+	BankBlocked []string
 	// FundedOther: balances in denoms other than the minting denom (look-alike spellings such as "UUSDC"):
 	// denom -> bech32 address -> amount.
 	FundedOther map[string]map[string]*big.Int
@@ -167,8 +169,12 @@ func New(cfg Config) (c *Chain, err error) {
 	authority := authtypes.NewModuleAddress("gov").String()
 	c.Auth = authkeeper.NewAccountKeeper(c.Cdc, runtime.NewKVStoreService(c.Keys[authtypes.StoreKey]),
 		authtypes.ProtoBaseAccount, maccPerms, address.Bech32Codec{Bech32Prefix: cfg.Prefix}, cfg.Prefix, authority)
+	blocked := map[string]bool{}
+	for _, a := range cfg.BankBlocked {
+		blocked[a] = true
+	}
 	c.Bank = bankkeeper.NewBaseKeeper(c.Cdc, runtime.NewKVStoreService(c.Keys[banktypes.StoreKey]), c.Auth,
-		map[string]bool{}, authority, logger)
+		blocked, authority, logger)
 	c.FTF = ftfkeeper.NewKeeper(c.Cdc, logger, runtime.NewKVStoreService(c.Keys[ftftypes.StoreKey]), c.Bank)
 	c.Bank.AppendSendRestriction(c.FTF.SendRestrictionFn)
 
